@@ -45,6 +45,20 @@ Theorem C06_announcements_intact_any_display_name :
 Proof. exact (conj cut_name_contract announce_any_name_intact). Qed.
 Print Assumptions C06_announcements_intact_any_display_name.
 
+(** CIDR routes in every spelling net.ParseCIDR accepts (IPv4, IPv6,
+    IPv4-mapped IPv6 ::ffff:a.b.c.d/96+n, masks below /96, host routes, /0):
+    the wire route (family from the mask width, prefix length from the mask,
+    address bytes as they are) is within the limits and the receiver rebuilds
+    exactly the announced (address, ones, bits) triple - so the announcing and
+    the learning routing table canonicalise the same net.IPNet.  Together with
+    C06_announcements_intact (instantiated with these routes) no spelling is
+    dropped or turned into another network. *)
+Theorem C06_cidr_spellings_intact : forall n metric, ipnet_ok n = true -> metric < 65536 ->
+  wfb Route_c (ipnet_to_route n metric) = true /\
+  route_to_ipnet (ipnet_to_route n metric) = Some n.
+Proof. exact ipnet_route_roundtrip. Qed.
+Print Assumptions C06_cidr_spellings_intact.
+
 (** One advertisement (also a forwarded or replayed one): a group that
     satisfies the splitter's bounds is encoded, decodes to exactly its routes
     and stays within the payload limit for every path and seen-by list of up
@@ -200,7 +214,10 @@ Theorem C06_source_facts :
   gen_reflood_keeps_origin_sequence_appends_seen_by = true /\
   gen_display_name_cut_bytes = max_name_len /\
   gen_increment_sequence_under_write_lock = true /\
-  gen_sequence_writers_under_write_lock = gen_sequence_writers.
+  gen_sequence_writers_under_write_lock = gen_sequence_writers /\
+  gen_cidr_family_from_mask_width = true /\
+  gen_cidr_prefix_length_from_mask_ones = true /\
+  gen_cidr_prefix_is_address_bytes = true.
 Proof.
   repeat split; try reflexivity. intros. unfold route_wire_size, gen_route_size_const, gen_route_size_per_prefix_byte.
   rewrite N.mul_1_l, N.add_comm, N.add_assoc. reflexivity.
